@@ -39,10 +39,12 @@ type basmLine struct {
 
 type basmProg struct {
 	RSize       int
-	Lines       []basmLine
+	Progs       [][]basmLine // one section per processor
 	Entry, Epos int
-	Lbd         bool // the label of line Epos is written before the entry directive
-	Outs        [][2]uint64 // expected <<port, value>> in order
+	Lbd         bool        // the label of line Epos is written before the entry directive
+	Gio         string      // machine-wide default iomode written in the bmdef line
+	AttFirst    bool        // which end of every ioatt pair is written first
+	Outs        [][2]uint64 // expected <<external output, value>> in order
 	AscOuts     [][2]uint64 // the stream of the as-coded interpreter (known deviations of the pinned tree)
 	Steps       int
 }
@@ -61,71 +63,114 @@ func basmLiteral(v int, nt string) string {
 	return strconv.Itoa(v)
 }
 
-// basmText prints the program as .basm source; outMap[k] is the program's output port wired to
-// external output k.
-func basmText(p basmProg) (src string, outMap []int, usesIn bool) {
+// basmText prints the program as .basm source; outMap[k] is the specification's external output
+// wired to external output k of the machine.  ok is false when the source would leave one end of
+// the inter-processor bond without a port (only one of the two programs uses it).
+func basmText(p basmProg) (src string, outMap []int, ok bool) {
 	var sb strings.Builder
-	fmt.Fprintf(&sb, "%%meta bmdef global registersize:%d\n", p.RSize)
+	ncp := len(p.Progs)
+	bmdef := fmt.Sprintf("%%meta bmdef global registersize:%d", p.RSize)
+	if p.Gio != "none" && p.Gio != "" {
+		bmdef += ", iomode:" + p.Gio
+	}
+	if p.AttFirst {
+		sb.WriteString(bmdef + "\n")
+	}
 	sb.WriteString("%macro twice 0\n\tinc r1\n\tinc r1\n%endmacro\n")
-	sb.WriteString("%section code .romtext iomode:sync\n")
-	target := map[int]bool{p.Entry: true}
-	ports := map[int]bool{}
-	for _, l := range p.Lines {
-		if l.Op == "j" || l.Op == "jz" {
-			target[l.T] = true
+	usesIn := make([]bool, ncp)
+	ports := make([]map[int]bool, ncp)
+	for c, prog := range p.Progs {
+		fmt.Fprintf(&sb, "%%section code%d .romtext iomode:sync\n", c)
+		target := map[int]bool{p.Entry: true}
+		ports[c] = map[int]bool{}
+		for _, l := range prog {
+			if l.Op == "j" || l.Op == "jz" {
+				target[l.T] = true
+			}
+			if l.Op == "send" {
+				ports[c][l.A] = true
+			}
+			if l.Op == "recv" {
+				usesIn[c] = true
+			}
 		}
-		if l.Op == "send" {
-			ports[l.A] = true
+		for i, l := range prog {
+			if i == p.Epos && !p.Lbd {
+				fmt.Fprintf(&sb, "\tentry L%d\n", p.Entry)
+			}
+			if target[i] {
+				fmt.Fprintf(&sb, "L%d:\n", i)
+			}
+			if i == p.Epos && p.Lbd {
+				fmt.Fprintf(&sb, "\tentry L%d\n", p.Entry)
+			}
+			switch l.Op {
+			case "clr", "inc", "dec":
+				fmt.Fprintf(&sb, "\t%s r%d\n", l.Op, l.A)
+			case "add", "cpy":
+				fmt.Fprintf(&sb, "\t%s r%d, r%d\n", l.Op, l.A, l.B)
+			case "movrr":
+				fmt.Fprintf(&sb, "\tmov r%d, r%d\n", l.A, l.B)
+			case "rset":
+				fmt.Fprintf(&sb, "\trset r%d, %s\n", l.A, basmLiteral(l.B, l.Nt))
+			case "movri":
+				fmt.Fprintf(&sb, "\tmov r%d, %s\n", l.A, basmLiteral(l.B, l.Nt))
+			case "nop", "twice":
+				fmt.Fprintf(&sb, "\t%s\n", l.Op)
+			case "j":
+				fmt.Fprintf(&sb, "\tj L%d\n", l.T)
+			case "jz":
+				fmt.Fprintf(&sb, "\tjz r%d, L%d\n", l.A, l.T)
+			case "send":
+				fmt.Fprintf(&sb, "\tmov o%d, r%d\n", l.A, l.B)
+			case "recv":
+				fmt.Fprintf(&sb, "\tmov r%d, i0\n", l.A)
+			}
 		}
-		if l.Op == "recv" {
-			usesIn = true
+		sb.WriteString("%endsection\n")
+	}
+	for c := range p.Progs {
+		fmt.Fprintf(&sb, "%%meta cpdef cpu%d romcode:code%d, ramsize:8\n", c, c)
+	}
+	pair := func(name, a, b string) {
+		if p.AttFirst {
+			a, b = b, a
+		}
+		fmt.Fprintf(&sb, "%%meta ioatt %s %s\n%%meta ioatt %s %s\n", name, a, name, b)
+	}
+	if usesIn[0] {
+		pair("in0", "cp:bm, index:0, type:input", "cp:cpu0, index:0, type:input")
+	}
+	ok = true
+	type ext struct{ spec, cp, port int }
+	var exts []ext
+	if ncp == 1 {
+		for o := range ports[0] {
+			exts = append(exts, ext{o, 0, o})
+		}
+	} else {
+		if ports[0][1] != usesIn[1] {
+			ok = false
+		}
+		if ports[0][1] && usesIn[1] {
+			pair("link", "cp:cpu0, index:1, type:output", "cp:cpu1, index:0, type:input")
+		}
+		if ports[0][0] {
+			exts = append(exts, ext{0, 0, 0})
+		}
+		for o := range ports[1] {
+			exts = append(exts, ext{1 + o, 1, o})
 		}
 	}
-	for i, l := range p.Lines {
-		if i == p.Epos && !p.Lbd {
-			fmt.Fprintf(&sb, "\tentry L%d\n", p.Entry)
-		}
-		if target[i] {
-			fmt.Fprintf(&sb, "L%d:\n", i)
-		}
-		if i == p.Epos && p.Lbd {
-			fmt.Fprintf(&sb, "\tentry L%d\n", p.Entry)
-		}
-		switch l.Op {
-		case "clr", "inc", "dec":
-			fmt.Fprintf(&sb, "\t%s r%d\n", l.Op, l.A)
-		case "add", "cpy":
-			fmt.Fprintf(&sb, "\t%s r%d, r%d\n", l.Op, l.A, l.B)
-		case "movrr":
-			fmt.Fprintf(&sb, "\tmov r%d, r%d\n", l.A, l.B)
-		case "rset":
-			fmt.Fprintf(&sb, "\trset r%d, %s\n", l.A, basmLiteral(l.B, l.Nt))
-		case "movri":
-			fmt.Fprintf(&sb, "\tmov r%d, %s\n", l.A, basmLiteral(l.B, l.Nt))
-		case "nop", "twice":
-			fmt.Fprintf(&sb, "\t%s\n", l.Op)
-		case "j":
-			fmt.Fprintf(&sb, "\tj L%d\n", l.T)
-		case "jz":
-			fmt.Fprintf(&sb, "\tjz r%d, L%d\n", l.A, l.T)
-		case "send":
-			fmt.Fprintf(&sb, "\tmov o%d, r%d\n", l.A, l.B)
-		case "recv":
-			fmt.Fprintf(&sb, "\tmov r%d, i0\n", l.A)
-		}
+	sort.Slice(exts, func(i, j int) bool { return exts[i].spec < exts[j].spec })
+	for k, e := range exts {
+		outMap = append(outMap, e.spec)
+		pair(fmt.Sprintf("out%d", e.spec), fmt.Sprintf("cp:bm, index:%d, type:output", k), fmt.Sprintf("cp:cpu%d, index:%d, type:output", e.cp, e.port))
 	}
-	sb.WriteString("%endsection\n%meta cpdef cpu romcode:code, ramsize:8\n")
-	if usesIn {
-		sb.WriteString("%meta ioatt in0 cp:bm, index:0, type:input\n%meta ioatt in0 cp:cpu, index:0, type:input\n")
+	if !p.AttFirst {
+		sb.WriteString(bmdef + "\n")
 	}
-	for o := range ports {
-		outMap = append(outMap, o)
-	}
-	sort.Ints(outMap)
-	for k, o := range outMap {
-		fmt.Fprintf(&sb, "%%meta ioatt out%d cp:bm, index:%d, type:output\n%%meta ioatt out%d cp:cpu, index:%d, type:output\n", o, k, o, o)
-	}
-	return sb.String(), outMap, usesIn
+	return sb.String(), outMap, ok
 }
 
 func assembleForC05(src string) (bm *bondmachine.Bondmachine, err error) {
@@ -173,14 +218,15 @@ func runC05(r *evid.Run) {
 	defer os.RemoveAll(scratch)
 	var progs []basmProg
 	var transitions int64
-	gen := func(rsize, len0, budget, nout int, entryAny, dirAny, macroHeavy bool, n int, seed int64) bool {
-		dir := filepath.Join(scratch, fmt.Sprintf("g_%d_%d_%v_%v_%v", rsize, len0, entryAny, dirAny, macroHeavy))
+	gen := func(rsize, len0, budget, ncp int, entryAny, dirAny, macroHeavy bool, n int, seed int64) bool {
+		nout := 2
+		dir := filepath.Join(scratch, fmt.Sprintf("g_%d_%d_%d_%v_%v_%v", rsize, len0, ncp, entryAny, dirAny, macroHeavy))
 		os.MkdirAll(dir, 0o755)
 		up := func(b bool) string { return strings.ToUpper(fmt.Sprint(b)) }
-		cfg := fmt.Sprintf("SPECIFICATION Spec\nCONSTANTS\n RSize = %d\n Len0 = %d\n Budget = %d\n NOut = %d\n EntryAnywhere = %s\n DirectiveAnywhere = %s\n MacroHeavy = %s\nINVARIANT TypeOK\nCHECK_DEADLOCK FALSE\n",
-			rsize, len0, budget, nout, up(entryAny), up(dirAny), up(macroHeavy))
+		cfg := fmt.Sprintf("SPECIFICATION Spec\nCONSTANTS\n RSize = %d\n Len0 = %d\n Budget = %d\n NOut = %d\n NCP = %d\n EntryAnywhere = %s\n DirectiveAnywhere = %s\n MacroHeavy = %s\nINVARIANT TypeOK\nCHECK_DEADLOCK FALSE\n",
+			rsize, len0, budget, nout, ncp, up(entryAny), up(dirAny), up(macroHeavy))
 		res, err := tlc.Run(tlc.Options{SpecDir: specDir, Module: "BasmSem", CfgText: cfg, Workers: 1, Timeout: 20 * time.Minute,
-			Args: []string{"-simulate", fmt.Sprintf("file=%s/b,num=%d", dir, n), "-depth", strconv.Itoa(len0 + budget + 2), "-seed", strconv.FormatInt(seed, 10)}})
+			Args: []string{"-simulate", fmt.Sprintf("file=%s/b,num=%d", dir, n), "-depth", strconv.Itoa(ncp*(len0+1) + budget + 2), "-seed", strconv.FormatInt(seed, 10)}})
 		if err != nil {
 			r.Inconclusive("tlc simulate: %v", err)
 			return false
@@ -198,13 +244,22 @@ func runC05(r *evid.Run) {
 				return false
 			}
 			last := beh[len(beh)-1].Vars
-			p := basmProg{RSize: rsize, Entry: int(tlaval.Int(last["entry"])), Epos: int(tlaval.Int(last["epos"])), Lbd: tlaval.Bool(last["lbd"]), Steps: int(tlaval.Int(last["steps"]))}
-			for _, lv := range tlaval.AsSeq(last["prog"]) {
-				rec := tlaval.AsRec(lv)
-				p.Lines = append(p.Lines, basmLine{Op: tlaval.Str(rec["op"]), A: int(tlaval.Int(rec["a"])), B: int(tlaval.Int(rec["b"])), T: int(tlaval.Int(rec["t"])), Nt: tlaval.Str(rec["nt"])})
+			p := basmProg{RSize: rsize, Entry: int(tlaval.Int(last["entry"])), Epos: int(tlaval.Int(last["epos"])), Lbd: tlaval.Bool(last["lbd"]),
+				Gio: tlaval.Str(last["gio"]), AttFirst: tlaval.Bool(last["attfirst"]), Steps: int(tlaval.Int(last["steps"]))}
+			complete := true
+			for _, pv := range tlaval.AsSeq(last["progs"]) {
+				var lines []basmLine
+				for _, lv := range tlaval.AsSeq(pv) {
+					rec := tlaval.AsRec(lv)
+					lines = append(lines, basmLine{Op: tlaval.Str(rec["op"]), A: int(tlaval.Int(rec["a"])), B: int(tlaval.Int(rec["b"])), T: int(tlaval.Int(rec["t"])), Nt: tlaval.Str(rec["nt"])})
+				}
+				if len(lines) != len0 {
+					complete = false
+				}
+				p.Progs = append(p.Progs, lines)
 			}
-			if len(p.Lines) != len0 {
-				continue // behaviour cut before the program was complete
+			if !complete || len(p.Progs) != ncp {
+				continue // behaviour cut before the programs were complete
 			}
 			pairs := func(v tlaval.Value) (out [][2]uint64) {
 				for _, o := range tlaval.AsSeq(v) {
@@ -221,16 +276,21 @@ func runC05(r *evid.Run) {
 		os.RemoveAll(dir)
 		return true
 	}
-	if !gen(8, 10, 40, 2, false, false, false, r.Pick(150, 1500), r.Seed*7+1) || !gen(8, 8, 40, 2, false, true, false, r.Pick(60, 600), r.Seed*7+2) ||
-		!gen(8, 8, 40, 2, true, true, false, r.Pick(60, 600), r.Seed*7+3) || !gen(8, 8, 40, 2, false, false, true, r.Pick(40, 300), r.Seed*7+4) ||
-		!gen(16, 8, 40, 2, false, false, false, r.Pick(40, 300), r.Seed*7+5) {
+	if !gen(8, 10, 40, 1, false, false, false, r.Pick(120, 1500), r.Seed*7+1) || !gen(8, 8, 40, 1, false, true, false, r.Pick(60, 600), r.Seed*7+2) ||
+		!gen(8, 8, 40, 1, true, true, false, r.Pick(60, 600), r.Seed*7+3) || !gen(8, 8, 40, 1, false, false, true, r.Pick(40, 300), r.Seed*7+4) ||
+		!gen(16, 8, 40, 1, false, false, false, r.Pick(60, 400), r.Seed*7+5) || !gen(8, 8, 60, 2, false, false, false, r.Pick(100, 1000), r.Seed*7+6) ||
+		!gen(16, 6, 60, 2, false, true, true, r.Pick(40, 400), r.Seed*7+7) {
 		return
 	}
 	r.Set("states", int64(len(progs)))
 	r.Set("transitions", transitions)
-	var assembled, compared, values, withOutputs int64
+	var assembled, compared, values, withOutputs, skipped, twoCP int64
 	for _, p := range progs {
-		src, outMap, _ := basmText(p)
+		src, outMap, wired := basmText(p)
+		if !wired {
+			skipped++
+			continue
+		}
 		ctx := map[string]interface{}{"source": src, "expected": p.Outs}
 		bm, err := assembleForC05(src)
 		if err != nil {
@@ -238,7 +298,7 @@ func runC05(r *evid.Run) {
 			continue
 		}
 		assembled++
-		res, err := runEnv(bm, func(port, k int) uint64 { return uint64(k+1) % (1 << uint(p.RSize)) }, p.Steps*8+60, 0)
+		res, err := runEnv(bm, func(port, k int) uint64 { return uint64(k+1) % (1 << uint(p.RSize)) }, p.Steps*10+100, 0)
 		if err != nil {
 			r.Violate("simulation-error:"+c05Class(p), fmt.Sprintf("the assembled machine cannot be simulated: %v", err), ctx)
 			continue
@@ -287,6 +347,9 @@ func runC05(r *evid.Run) {
 			continue
 		}
 		compared++
+		if len(p.Progs) > 1 {
+			twoCP++
+		}
 		if len(p.Outs) > 0 {
 			withOutputs++
 		}
@@ -300,6 +363,8 @@ func runC05(r *evid.Run) {
 	r.Set("programs_agreeing", compared)
 	r.Set("output_values_compared", values)
 	r.Set("programs_agreeing_with_outputs", withOutputs)
+	r.Set("two_processor_programs_agreeing", twoCP)
+	r.Set("programs_skipped_bond_used_at_one_end_only", skipped)
 	r.Set("evaluations", int64(len(progs)))
 }
 
